@@ -12,7 +12,7 @@ META = {
     "hashseeds": {"quick": [0, 1], "thorough": [0, 1, 2, 3, 4, 5, 6, 7]},
     "shards": {"quick": 8, "thorough": 4},
     "bounds": {
-        "quick": "programs rendered from F-unit(K<=4), F-shape, 30 random DAGs, each also with 1..3 DFFs (D from gates, inputs, other DFFs' Q incl. chains), repeated operands; 6 layouts (line order: writer order / outputs first / gates first / shuffled; upper/lower case keywords and gate names; BUF vs BUFF; blanks around `=`, `,` and inside parentheses, tabs, blank and comment lines); writer round trip on blackbox-free members with and without 0/1 constants",
+        "quick": "programs rendered from F-unit(K<=4), F-shape, 30 random DAGs, each also with 1..3 DFFs (D from gates, inputs, other DFFs' Q incl. chains), repeated operands; 8 layouts (line order: writer order / outputs first / gates first / shuffled; upper/lower case keywords and gate names; BUF vs BUFF; blanks around `=`, `,` and inside parentheses, tabs and line breaks inside operand lists, blank and comment lines); writer round trip on blackbox-free members with and without 0/1 constants",
         "thorough": "300 random DAGs, 8 hash seeds",
     },
     "outside": ["the text space is a generated corpus, not symbolic (regex front end)", "white space between a gate name and its `(`, mixed-case keywords, several nets per INPUT()/OUTPUT() (not in the dialect the regexes document)", "constant x and blackboxes in the writer (rejected loudly)"],
@@ -33,6 +33,10 @@ def programs(ctx):
     for t in ("and", "nand", "or", "nor", "xor", "xnor"):
         for k, pat in enumerate((["a", "a"], ["a", "a", "a"], ["a", "b", "a"], ["a", "a", "a", "a"], ["b", "a", "b", "b"], ["a", "b", "b", "a", "a"])):
             out.append((("benchrep", t, k), ("repeat", t, pat)))
+    # single-input circuits with constants and nodes named <input><suffix> (helper names a writer might generate)
+    for k, suf in enumerate(("_inv", "_not", "_n", "_b", "_buf", "_dup", "_0", "_1", "_tie", "_const")):
+        nodes = [("a", "input", []), ("k0", "0", []), ("k1", "1", []), ("a" + suf, "and", ["a", "k1"], True), ("p", "or", ["a" + suf, "k0"], True), ("q", "xor", ["a", "k1", "k0"], True)]
+        out.append((("benchrt", "suffix", suf), ("roundtrip", mkspec("suffix" + suf, nodes))))
     for cid, spec in base + F.f_rand(ctx.seed + 5, 10 if ctx.quick else 60, consts=True):
         A = Net.from_spec(spec)
         if A.bbs or A.has_x() or not A.inputs():
@@ -106,9 +110,12 @@ def ref_net(ast, name):
 def render(ast, layout, rng, name):
     up = layout % 2 == 0
     kw_in, kw_out = ("INPUT", "OUTPUT") if up else ("input", "output")
-    style = layout % 3
+    style = layout % 4
 
     def sp(s):
+        if style == 3:
+            # tabs and line breaks inside the operand list (the reader documents that it strips blanks, tabs and newlines there)
+            return s.replace(" = ", "\t=\t").replace(", ", ",\n\t").replace("(", "(\t", 1).replace(")", "\n)")
         if style == 0:
             return s
         if style == 1:
@@ -155,7 +162,7 @@ def run(ctx):
                 _, spec, ndff = p
                 ast = make_ast(spec, ndff, rng)
             E = ref_net(ast, spec["name"])
-            for layout in range(6) if ctx.quick else range(24):
+            for layout in range(8) if ctx.quick else range(32):
                 text = render(ast, layout, random.Random(f"{cid}-{layout}"), spec["name"])
                 det = {"case": cid, "layout": layout, "text": text[:1500]}
                 if layout == 0:
